@@ -152,3 +152,5 @@ func firstLine(s string) string {
 	}
 	return s
 }
+
+func fmtInt(n int64) string { return strconv.FormatInt(n, 10) }
